@@ -76,3 +76,58 @@ Definition deletion_sim (ops : list op) (keep : list bool) (K : reg -> Prop) (In
      Rdres M ops keep K Inv (run M sem call_sem ops n st) (run M sem call_sem (select keep ops) m st')) /\
   (forall m, exists n,
      Rdres M ops keep K Inv (run M sem call_sem ops n st) (run M sem call_sem (select keep ops) m st')).
+
+(* ---- remove_redundant_ops (with the forward guard): table well-formedness and the assumption on
+   zero-length memory copies ---- *)
+Definition is_flag (c : reg) : bool := orb (N.eqb c R_OF) (N.eqb c R_ERR).
+
+(* use/def lists fit the kinds; the ops the pass may delete set no constant register but $of/$err *)
+Definition rro_table_ok (ops : list op) : bool :=
+  andb (forallb wf_c_opb ops)
+       (forallb (fun o => orb (negb (redundant_op o)) (andb (forallb is_flag (cdefs o))
+                   (match kind o with KOther _ _ => nil_b (defs o) | _ => true end))) ops).
+
+(* MCP with length $zero / MCPI with length 0 neither trap nor change memory *)
+Definition mcp_zero_skips (M : Type) (sem : N -> list N -> list val -> M -> option (list val * M))
+  (ops : list op) : Prop :=
+  forall o opc args, In o ops -> kind o = KOther opc args -> redundant_op o = true ->
+    forall vs m, exists vs', sem opc (imms_of args) vs m = Some (vs', m).
+
+(* ---- in-place passes: table conditions ---- *)
+(* every MOVE clears exactly $of/$err (as NOOP does) and the use/def lists fit the kinds *)
+Definition moves_table_ok (ops : list op) : bool :=
+  andb (forallb wf_c_opb ops)
+       (forallb (fun o => match kind o with
+                          | KMove _ _ => list_eqb N.eqb (cdefs o) [R_OF; R_ERR]
+                          | _ => true end) ops).
+
+Definition labels_of (ops : list op) : list label :=
+  flat_map (fun o => match kind o with KLabel l => [l] | _ => [] end) ops.
+
+Fixpoint nodup_b (l : list N) : bool :=
+  match l with [] => true | x :: t => andb (negb (memb x t)) (nodup_b t) end.
+
+(* remove_sequential_jumps puts a NOOP (clearing $of/$err) where the jump left them alone: the
+   flags must be dead there in the new program *)
+Definition seqj_replaced (ops : list op) : list bool :=
+  (fix go (l : list op) : list bool :=
+     match l with
+     | a :: t => match t with b :: _ => jump_to_next a b :: go t | [] => [false] end
+     | [] => []
+     end) ops.
+
+Definition seqj_side_with (Lc' : ltab) (ops : list op) : bool :=
+  let ops' := remove_sequential_jumps ops in
+  andb (is_postfix defs_c (items_of ops') Lc')
+  (andb (forallb wf_c_opb ops)
+  (andb (nodup_b (labels_of ops))
+        (forallb (fun p => match p with (i, rep) =>
+                    orb (negb rep) (andb (negb (PS.mem (rkey R_OF) (lget Lc' (S i))))
+                                         (negb (PS.mem (rkey R_ERR) (lget Lc' (S i))))) end)
+                 (combine (seq 0 (length ops)) (seqj_replaced ops))))).
+
+Definition seqj_side_ok (ops : list op) : bool :=
+  match liveness defs_c FUEL (remove_sequential_jumps ops) with
+  | Some Lc' => seqj_side_with Lc' ops
+  | None => false
+  end.
